@@ -21,6 +21,9 @@
 // member of a v-if / v-else-if / v-else chain: every evaluation must deliver the props per the
 // model, a member that is not chosen renders nothing, and nothing is visible afterwards.
 //
+// Component files stand directly in components/ or in sub-folders; the shorthand tag is the
+// documented mapping (directory names + file name, kebab-case, joined by "-").
+//
 // Deliberately not asserted (unspecified): a :required name that only the includer's scope
 // provides; partial output of a failed render; the wording of errors beyond "contains a missing
 // name"; the Go type of values read from YAML front-matter; interpolated or bound strings that
@@ -303,6 +306,7 @@ type Req struct {
 // Comp is one component file components/<Name>.vuego.
 type Comp struct {
 	Name string            `json:"name"`           // PascalCase base name, e.g. CardA -> <card-a>
+	Dir  string            `json:"dir,omitempty"`  // sub-folder below components/, e.g. "cards" -> <cards-card-a>, "forms/inputs" -> <forms-inputs-card-a>
 	FM   map[string]vals.V `json:"fm,omitempty"`   // front-matter
 	Wrap bool              `json:"wrap,omitempty"` // body wrapped in a root <template> (forced when Req is set)
 	// NullAs: how a null front-matter value (vals kind "nil") is spelled: "" = `key: null`,
@@ -378,7 +382,24 @@ func kebab(s string) string {
 	return b.String()
 }
 
-func compPath(cp Comp) string { return "components/" + cp.Name + ".vuego" }
+func compPath(cp Comp) string {
+	if cp.Dir != "" {
+		return "components/" + cp.Dir + "/" + cp.Name + ".vuego"
+	}
+	return "components/" + cp.Name + ".vuego"
+}
+
+// compTag is the documented mapping (docs/api.md WithComponents, docs/components.md): the
+// directory names below components/ and the file name, each in kebab-case, joined with "-".
+func compTag(cp Comp) string {
+	var parts []string
+	if cp.Dir != "" {
+		for _, d := range strings.Split(cp.Dir, "/") {
+			parts = append(parts, kebab(d))
+		}
+	}
+	return strings.Join(append(parts, kebab(cp.Name)), "-")
+}
 
 // richBlock: the first block of a component file reads every name in three ways - {{ }}, a bound
 // attribute and v-if - since those go through different lookups of the scope.
@@ -462,7 +483,7 @@ func incTag(c Case, inc Inc, short bool) string {
 		kids = "\n" + kids
 	}
 	if short {
-		tag := kebab(cp.Name)
+		tag := compTag(cp)
 		return fmt.Sprintf("<%s%s%s>%s</%s>\n", tag, d, a, kids, tag)
 	}
 	return fmt.Sprintf(`<template%s include="%s"%s>%s</template>`+"\n", d, compPath(cp), a, kids)
@@ -799,6 +820,24 @@ func kindOf(v any) string {
 		return "map"
 	}
 	return fmt.Sprintf("%T", v)
+}
+
+// dirOK: sub-folders are lower-case words separated by "/".
+func dirOK(d string) bool {
+	if d == "" {
+		return true
+	}
+	for _, part := range strings.Split(d, "/") {
+		if part == "" {
+			return false
+		}
+		for _, r := range part {
+			if r < 'a' || r > 'z' {
+				return false
+			}
+		}
+	}
+	return true
 }
 
 // looksJSON: the value begins with { or [ (the trigger of the documented JSON auto-decoding).
@@ -1230,6 +1269,12 @@ func model(c Case) result {
 			if depth >= 1 {
 				r.st.nestedInc++
 			}
+			if cp.Dir != "" {
+				r.st.places["component-in-subfolder"]++
+				if strings.Contains(cp.Dir, "/") {
+					r.st.places["component-in-nested-subfolder"]++
+				}
+			}
 			if cp.EOL == "crlf" && len(cp.FM) > 0 {
 				r.st.crlf++
 			}
@@ -1405,7 +1450,7 @@ func model(c Case) result {
 		}
 	}
 	for _, cp := range c.Comps {
-		if cp.Name == "" || strings.ContainsAny(cp.Name, "/. -") {
+		if cp.Name == "" || strings.ContainsAny(cp.Name, "/. -") || !dirOK(cp.Dir) {
 			r.vague = "component name outside the documented PascalCase scheme"
 		}
 	}
@@ -1684,6 +1729,11 @@ var universe = []string{"va1", "vb2", "vc3", "vd4"}
 var caseNames = []string{"pageTitle", "UserName", "MAXLEN", "item_2Count", "x_Y"}
 
 func propName(n string) bool { return n == strings.ToLower(n) }
+
+// compDirs: sub-folders of components/. Many start with, or consist of, letters of the word
+// "components/" itself (a prefix must be cut off as a prefix, not as a set of characters).
+var compDirs = []string{"cards", "common", "core", "menus", "posts", "nest/ed/deep", "seo", "tests", "components", "c", "sect/ions",
+	"ui", "widgets", "forms/inputs", "buttons", "layout"}
 
 var compNames = []string{"CardA", "BoxB", "Badge", "PanelItemD", "RowE"}
 
@@ -2150,6 +2200,9 @@ func genCase(rec *ev.Rec, known *kf.File) func(t *rapid.T) Case {
 				}
 			}
 			cp.NullAs = rapid.SampledFrom([]string{"", "empty", "tilde"}).Draw(t, fmt.Sprintf("c%d.nullas", i))
+			if rapid.Bool().Draw(t, fmt.Sprintf("c%d.indir", i)) {
+				cp.Dir = rapid.SampledFrom(compDirs).Draw(t, fmt.Sprintf("c%d.dir", i))
+			}
 			cp.Slot = rapid.SampledFrom([]string{"", "", "", "default", "named", "both"}).Draw(t, fmt.Sprintf("c%d.slot", i))
 			cp.EOL = rapid.SampledFrom([]string{"", "", "crlf"}).Draw(t, fmt.Sprintf("c%d.eol", i))
 			cp.Fence = rapid.SampledFrom([]string{"", "", "", "open", "close", "both"}).Draw(t, fmt.Sprintf("c%d.fence", i))
@@ -2962,6 +3015,39 @@ func enumFill(yield func(Case) bool) int {
 	return n
 }
 
+// enumDirs: a component in every sub-folder of the vocabulary (and at top level) x three file
+// names x required prop provided or not: the shorthand tag built from directory path + file name
+// must behave exactly like the explicit include (props delivered, :required checked).
+func enumDirs(yield func(Case) bool) int {
+	n := 0
+	for _, dir := range append([]string{""}, compDirs...) {
+		for _, name := range []string{"CardHeader", "Alert", "TextField"} {
+			for z := 0; z < 4; z++ {
+				provided, nested := z&1 != 0, z&2 != 0
+				c := Case{Names: []string{"va1", "vb2"}, Print: []string{"d1"}, Data: fixedData(), NestedShort: true,
+					Comps: []Comp{{Name: name, Dir: dir, Req: []Req{{":required", "va1"}}, FM: map[string]vals.V{"vb2": vals.Str("fm2")}}, {Name: "BoxB", Dir: "common"}}}
+				inc := Inc{Comp: 0, Props: []Prop{{Name: "vb2", Mode: "bind", Path: "d0"}}}
+				if provided {
+					inc.Props = append(inc.Props, Prop{Name: "va1", Mode: "static", Text: "L"})
+				}
+				if nested {
+					c.Comps[1].Incs = []Inc{inc}
+					c.Comps[0], c.Comps[1] = c.Comps[1], c.Comps[0]
+					c.Comps[0].Incs[0].Comp = 1
+					c.Page = []Inc{{Comp: 0}}
+				} else {
+					c.Page = []Inc{inc}
+				}
+				n++
+				if !yield(c) {
+					return n
+				}
+			}
+		}
+	}
+	return n
+}
+
 // ---------------------------------------------------------------------------------------------
 // Tests
 // ---------------------------------------------------------------------------------------------
@@ -3015,6 +3101,7 @@ func TestProp(t *testing.T) {
 	n9 := enumJSONTpl(each("enum-jsontpl"))
 	n10 := enumSpell(each("enum-spell"))
 	n11 := enumFill(each("enum-fill"))
+	n12 := enumDirs(each("enum-dirs"))
 	if shard == 0 {
 		for k := 0; k < skipped; k++ {
 			rec.Excluded(kfFalsy)
@@ -3026,7 +3113,7 @@ func TestProp(t *testing.T) {
 		}
 	}
 	if full && !rec.Failed() {
-		rec.Exhaustive(fmt.Sprintf("flat: %d names x {5 prop modes x front-matter x includer x required} (%d); twice: same component twice, 5^4 prop modes x front-matter x includer (%d); chain: depth-3 chain, one name, 10 states per level x includer x leaf required (%d); types: 33 values (16 of them texts starting with [ or { that are not JSON) x 5 modes x 4 collisions + 7 JSON documents as static props (%d); place: 39 placements (loop, slot content, chain member) x 6 ways of passing va1 x front-matter x includer x required (%d); pool: component with 9..12 bindings followed by loop / slot placements, twice (%d); case: 5 names with upper-case letters x front-matter x includer x 4 :required spellings (%d); fmzero: 10 null / zero-ish front-matter values x 5 prop modes x includer x root template x nesting (%d); jsontpl: 6 JSON literals with 0..2 mustaches x 3 sources x includer x front-matter x nesting (%d); spell: LF/CRLF x fence blanks x prop mode (null spelling rotating) x includer x root template x page CRLF (%d); fill: 3 slot kinds (binding nothing) x 7 sets of slot templates declaring colliding variables x 4 prop modes x includer x root template x nesting (%d)", run.Pick(2, 3), n1, n2, n3, n4, n5, n6, n7, n8, n9, n10, n11))
+		rec.Exhaustive(fmt.Sprintf("flat: %d names x {5 prop modes x front-matter x includer x required} (%d); twice: same component twice, 5^4 prop modes x front-matter x includer (%d); chain: depth-3 chain, one name, 10 states per level x includer x leaf required (%d); types: 33 values (16 of them texts starting with [ or { that are not JSON) x 5 modes x 4 collisions + 7 JSON documents as static props (%d); place: 39 placements (loop, slot content, chain member) x 6 ways of passing va1 x front-matter x includer x required (%d); pool: component with 9..12 bindings followed by loop / slot placements, twice (%d); case: 5 names with upper-case letters x front-matter x includer x 4 :required spellings (%d); fmzero: 10 null / zero-ish front-matter values x 5 prop modes x includer x root template x nesting (%d); jsontpl: 6 JSON literals with 0..2 mustaches x 3 sources x includer x front-matter x nesting (%d); spell: LF/CRLF x fence blanks x prop mode (null spelling rotating) x includer x root template x page CRLF (%d); fill: 3 slot kinds (binding nothing) x 7 sets of slot templates declaring colliding variables x 4 prop modes x includer x root template x nesting (%d); dirs: 17 component folders x 3 file names x required prop provided or not x nesting (%d)", run.Pick(2, 3), n1, n2, n3, n4, n5, n6, n7, n8, n9, n10, n11, n12))
 	}
 
 	run.Rapid(t, rec, "random", genCase(rec, known), classify, check)
